@@ -375,14 +375,17 @@ def check_unix(f):
     if len(r) == 1 and isinstance(r[0], dict):
         g = json.loads(json.dumps(r[0]))
         e2 = json.loads(json.dumps(exp))
-        if g.get("access", {}).get("permissions") != e2["access"]["permissions"] and re.search("[sStT]", f["perms"]):
+        causes = []
+        if (isinstance(g.get("access"), dict) and g["access"].get("permissions") != e2["access"]["permissions"]
+                and re.search("[sStT]", f["perms"])):
             g["access"]["permissions"] = e2["access"]["permissions"]
-            if g == e2:
-                sig = SIG_SPECIAL_BITS
-        elif f["year"] == 1900:
-            g.get("details", {})["modified"] = e2["details"]["modified"]
-            if g == e2:
-                sig = SIG_Y1900
+            causes.append(SIG_SPECIAL_BITS)
+        if (f["year"] == 1900 and isinstance(g.get("details"), dict)
+                and g["details"].get("modified") != e2["details"]["modified"]):
+            g["details"]["modified"] = e2["details"]["modified"]
+            causes.append(SIG_Y1900)
+        if causes and g == e2:       # nothing else differs; two independent defects may coincide
+            sig = causes[0]
     elif r == []:
         sig = "list unix well-formed line skipped"
     return "mismatch", fail(sig, "wrong-info", "list/unix", f, repr(r), repr([exp]))
